@@ -67,3 +67,87 @@ Example C19_example_eq :
   /\ block_py_eq (ex_block (VStr (lit "x"))) (ex_block (VStr (lit "y"))) = false
   /\ block_py_eq (ex_block (VStr (lit "1"))) (ex_block (VInt 1)) = false.
 Proof. exact example_eq. Qed.
+
+(* ================================================================== Field OBJECTS (identity): Model/EntryObj.v *)
+(* The theorems above see an entry as a list of field values.  Below, a store maps object ids to the content of Field
+   objects, an entry is the list of the ids in its field list, and several entries - and results of earlier get / pop
+   calls - may hold the same objects.  Proofs: Proofs/EntryObjProofs.v. *)
+From BP Require Import Model.EntryObj Proofs.EntryObjProofs.
+
+(* (a) every sequence of calls on one entry, performed on objects (set_field overwrites the list slot with the given
+   object, e[k] = v puts a NEW object there, pop removes the slot and returns the object), read through the store,
+   is the value-level run of Model/Entry.v: same final fields in the same order, same results; whatever is read through
+   the FINAL store (arguments, results handed out at any earlier time) is what it was at the time of its call.  The
+   entry never holds a dangling id, results are objects of the store, and the store only grew. *)
+Theorem C19_obj_refines : forall ops s e, ent_ok s e -> ops_ok ops s e ->
+  forall s' e' rs, orun ops s e = (s', e', rs) ->
+  run (map (abs_op s') ops) (abs_ent s e) = (abs_ent s' e', map (abs_res s') rs)
+  /\ ent_ok s' e' /\ Forall (res_ok s') rs /\ store_extends s s'.
+Proof. exact obj_refines. Qed.
+Print Assumptions C19_obj_refines.
+
+(* one call: the diagram commutes *)
+Theorem C19_obj_refines_step : forall s e o s1 e1 r, ent_ok s e -> op_ok s o -> ostep s e o = (s1, e1, r) ->
+  step (abs_ent s e) (abs_op s o) = (abs_ent s1 e1, abs_res s1 r)
+  /\ ent_ok s1 e1 /\ res_ok s1 r /\ store_extends s s1.
+Proof. exact ostep_refines. Qed.
+Print Assumptions C19_obj_refines_step.
+
+(* (b) NO call of the mapping interface, on any of several entries sharing any objects, changes an existing Field
+   object: the store only grows.  No hypothesis. *)
+Theorem C19_obj_store_frame : forall cs w i, In i (sdom (wstore w)) ->
+  In i (sdom (wstore (fst (wrun cs w)))) /\ slookup (wstore (fst (wrun cs w))) i = slookup (wstore w) i.
+Proof. exact store_frame. Qed.
+Print Assumptions C19_obj_store_frame.
+
+(* (c) whatever calls are made on OTHER entries, an entry b that is not called keeps the same objects in the same
+   order and shows exactly what it showed (fields, fields_dict, items(), get, in, [] for every key), whatever objects
+   it shares with the entries called; and every Field object that existed before (e.g. one handed out by an earlier
+   get) shows what it showed *)
+Theorem C19_obj_other_entries : forall cs w b e, nth_error (wents w) b = Some e -> ent_ok (wstore w) e ->
+  (forall c, In c cs -> fst c <> b) ->
+  let w' := fst (wrun cs w) in
+  nth_error (wents w') b = Some e
+  /\ shows_same (wstore w) (wstore w') e
+  /\ (forall i, In i (sdom (wstore w)) -> sget (wstore w') i = sget (wstore w) i).
+Proof. exact other_entries. Qed.
+Print Assumptions C19_obj_other_entries.
+
+(* (a) + (c) in one statement: a program over several entries sharing objects is, read through the store, the same
+   program over INDEPENDENT value-level entries (vstep touches only the entry called) *)
+Theorem C19_obj_world_refines : forall cs w, world_ok w -> wops_ok cs w ->
+  forall w' rs, wrun cs w = (w', rs) ->
+  vrun (map (abs_wop (wstore w')) cs) (abs_world w) = (abs_world w', map (abs_res (wstore w')) rs)
+  /\ world_ok w' /\ Forall (res_ok (wstore w')) rs /\ store_extends (wstore w) (wstore w').
+Proof. exact world_refines. Qed.
+Print Assumptions C19_obj_world_refines.
+
+(* ---- non-vacuity (witnesses in Proofs/EntryObjProofs.v) *)
+(* two worlds of two entries: in ex_world B gets A's title object through get / set_field, in ex_world2 B was built
+   from list(A.fields) and holds both of A's objects *)
+Example C19_obj_example_hypotheses :
+  world_ok ex_world /\ wops_ok ex_wops ex_world /\ world_ok ex_world2 /\ wops_ok ex_wops2 ex_world2.
+Proof. exact example_obj_hypotheses. Qed.
+(* f = A.get("title"); B.set_field(f); A["title"] = "X": A has a new object 4 in the slot of 1, B holds object 1 and
+   B["title"] is still "T", A["title"] is "X", f still shows "T" *)
+Example C19_obj_example_run :
+  let w' := fst (wrun ex_wops ex_world) in
+  map oids (wents w') = [[4; 2]; [1]]
+  /\ snd (wrun ex_wops ex_world) = [OObj 1; ONone; ONone; OVal (VStr (lit "T")); OVal (VStr (lit "X"))]
+  /\ sget (wstore w') 1 = mkfield (lit "title") (VStr (lit "T")) (Some 2%Z)
+  /\ sget (wstore w') 4 = mkfield (lit "title") (VStr (lit "X")) None.
+Proof. exact example_obj_run. Qed.
+(* item assignment on A: B, which shares both objects, reads as before; A does not *)
+Example C19_obj_example_shared :
+  let w' := fst (wrun ex_wops2 ex_world2) in
+  nth_error (abs_world ex_world2) 1 = Some (abs_ent ex_store (mkoent (lit "book") (lit "b") [1; 2]))
+  /\ nth_error (abs_world w') 1 = nth_error (abs_world ex_world2) 1
+  /\ nth_error (abs_world w') 0 <> nth_error (abs_world ex_world2) 0.
+Proof. exact example_obj_shared. Qed.
+(* which change of the code (c) excludes: item assignment that writes the value into the Field object found in the slot
+   (ostep_inplace) changes the entry that was not called and the object handed out before - on the same example *)
+Example C19_obj_inplace_refuted :
+  exists cs w b e, world_ok w /\ wops_ok cs w /\ nth_error (wents w) b = Some e /\ (forall c, In c cs -> fst c <> b)
+    /\ abs_ent (wstore (fst (wrun_inplace cs w))) e <> abs_ent (wstore w) e
+    /\ exists i, In i (sdom (wstore w)) /\ sget (wstore (fst (wrun_inplace cs w))) i <> sget (wstore w) i.
+Proof. exact obj_inplace_refuted. Qed.
